@@ -4,6 +4,7 @@ import Preflate.Props.C05Public
 #print axioms Preflate.estimate_no_panic
 #print axioms Preflate.estimate_outcomes
 #print axioms Preflate.encStream_only_err
+#print axioms Preflate.calc_bit_lengths_total
 #print axioms Preflate.parse_no_panic
 #print axioms Preflate.parse_no_fuel
 #print axioms Preflate.tree_index_safe
